@@ -33,7 +33,7 @@ Definition run (c : lcase) : res lstate :=
   load (lc_allow c) (files_of c) (rpath_of c) 400 (entry_of c) (lc_root c) (rootfile c).
 
 Definition model_obs (c : lcase) (s : lstate) : list (list string * option N) :=
-  flat_map (fun x : list string * kind * bool * node => match x with (p, _, _, n) => observe 200 s p 0 p n 2 end) (f_cells (rootfile c)).
+  flat_map (fun x : list string * kind * bool * node => match x with (p, k, _, n) => observe 200 s p 0 p n k 2 end) (f_cells (rootfile c)).
 Definition spec_obs_all (c : lcase) : list (list string * option N) :=
   flat_map (fun x : list string * kind * bool * node => match x with (p, k, _, n) => spec_obs (files_of c) (rpath_of c) 200 (lc_root c) p n k 2 end)
            (f_cells (rootfile c)).
